@@ -53,6 +53,7 @@ from mashumaro.core.meta.helpers import (
     is_named_tuple,
     is_optional,
     is_type_var_any,
+    is_union_with_none,
     resolve_type_params,
     substitute_type_params,
     type_name,
@@ -1179,6 +1180,7 @@ class CodeBuilder:
             ftype in (typing.Any, type(None), None)
             or is_type_var_any(self.get_real_type(fname, ftype))
             or is_optional(ftype, self.get_field_resolved_type_params(fname))
+            or is_union_with_none(ftype)
             or self.get_field_default(fname) is None
         )
         value = "value" if could_be_none or force_value else f"self.{fname}"
